@@ -10,7 +10,9 @@
   (`BOOT_TIME or boot_time()`), the argument checks of `ionice_set` / `rlimit`, and the
   ESRCH/ENOENT → NoSuchProcess translation of `wrap_exceptions`.
   The kernel is simulated: a process table of incarnations, a strictly increasing tick clock that
-  stamps every new process, and a published boot time that clock adjustments move.
+  stamps every new process, a published boot time that clock adjustments move, and two INPUTS attached to
+  PIDs: which ones the kernel refuses to signal / alter (EPERM / EACCES → AccessDenied, the attempt is logged
+  with the errno) and whose `/proc/pid/stat` cannot be opened (→ `_ident = (pid, None)`).
 -/
 namespace Psutil.C01
 
